@@ -466,3 +466,7 @@ mod convergence_storage_tests {
         );
     }
 }
+
+#[cfg(kani)]
+#[path = "/verif/kani/aranya-runtime/convergence_map.rs"]
+mod verif_kani;
